@@ -1,4 +1,384 @@
-/-! native driver `C12` (stub; replaced by the area's real driver) -/
-def main (_args : List String) : IO UInt32 := do
-  IO.println "stub"
+import PPLV.Interval.Model
+import PPLV.Interval.Spec
+/-!
+native driver `pplv_c12`.
+
+stdin: the journal of `harness/c12_interval.cc`, one event per line
+
+    <id> <ty> <op> <I> <J> <R> <ok>
+
+* `ty`  : `Q` (`Rational_Interval`, mpq, policy rational), `Z` (`Interval<mpz_class, Z_Box_Interval_Info>`),
+          `D` (`Interval<double, Floating_Point_Box_Interval_Info>`)
+* `op`  : `neg add sub mul div join meet diff join2 meet2 contains scontains disjoint eq
+          rex:<rel> run:<rel> wrap:<w>:<u|s> assign isempty`
+* `I J` : operands as the harness built them, `R` the result read from the real library:
+          `E` (is_empty()), or `[l,u]` / `(l,u)` … with `l,u` exact rationals or `-inf` / `+inf`,
+          or `T` / `F` for predicates; `-` for a missing operand
+* `ok`  : `1`/`0`, `R.OK()`
+
+args: `--d3 0|1`  `--d12 0|1` : whether the library measured at check time shows defect 3 / 12.
+
+Per event the driver checks
+  (a) `model`   : the code-shaped model (with the measured switches) gives exactly `R`;
+  (b) `enclose` : sampled members of the operands have their exact result inside the REAL `R`
+                  (this, `empty`, `exact`, `pred` are verdicts of the property on the real output);
+      `empty`   : `R` is empty although the exact image is not;
+      `exact`   : exact boundary types — `R` is not the least interval of the type containing the image;
+                  floating type — `R` does not contain the hull of the image;
+      `pred`    : a predicate answered differently from the set-theoretic truth;
+      `okinv`   : `R.OK()` is false.
+Output: `ok <id>` or one `MISMATCH <id> <obligation> tags=<t1,t2,…|-> <detail>` per failed obligation.
+-/
+open PPLV.Interval
+open PPLV.Interval.ExtRat (ninf fin pinf)
+
+namespace C12Driver
+
+def parseRat (s : String) : Option Rat :=
+  match s.splitOn "/" with
+  | [n] => n.toInt?.map (fun i => (i : Rat))
+  | [n, d] => do
+    let n ← n.toInt?
+    let d ← d.toNat?
+    if d == 0 then none else some (mkRat n d)
+  | _ => none
+
+def parseExt (s : String) : Option ExtRat :=
+  if s == "-inf" then some ninf
+  else if s == "+inf" then some pinf
+  else (parseRat s).map fin
+
+inductive Val where
+  | none                -- "-"
+  | empty               -- "E"
+  | iv (x : Iv)
+  | bool (b : Bool)
+deriving Repr, Inhabited
+
+def parseVal (s : String) : Option Val :=
+  if s == "-" then some .none
+  else if s == "E" then some .empty
+  else if s == "T" then some (.bool true)
+  else if s == "F" then some (.bool false)
+  else
+    let cs := s.toList
+    match cs with
+    | [] => none
+    | c0 :: rest =>
+      match rest.reverse with
+      | [] => none
+      | cl :: midr =>
+        let mid := String.ofList midr.reverse
+        let lo_open := c0 == '('
+        let hi_open := cl == ')'
+        if (c0 != '(' && c0 != '[') || (cl != ')' && cl != ']') then none
+        else match mid.splitOn "," with
+          | [a, b] => do
+            let l ← parseExt a
+            let u ← parseExt b
+            some (.iv ⟨⟨l, lo_open⟩, ⟨u, hi_open⟩⟩)
+          | _ => none
+
+def showRat (q : Rat) : String :=
+  if q.den == 1 then toString q.num else toString q.num ++ "/" ++ toString q.den
+
+def showExt : ExtRat → String
+  | ninf => "-inf"
+  | pinf => "+inf"
+  | fin q => showRat q
+
+structure Ty where
+  name : String
+  pol : Policy
+  rnd : Rounding
+  exact : Bool       -- boundary type is exact (mpq, mpz)
+  integer : Bool
+
+def tyOf (s : String) : Option Ty :=
+  if s == "Q" then some ⟨"Q", Policy.rational, Rounding.id, true, false⟩
+  else if s == "Z" then some ⟨"Z", Policy.integer, Rounding.int, true, true⟩
+  else if s == "D" then some ⟨"D", Policy.floating, Rounding.double, false, false⟩
+  else none
+
+/-- how the harness prints an interval: emptiness, then bounds with the *reported* openness -/
+def showIv (t : Ty) (x : Iv) : String :=
+  if isEmpty t.pol x then "E"
+  else
+    (if isOpen t.pol .lower x.lo then "(" else "[") ++ showExt x.lo.value ++ "," ++ showExt x.hi.value
+      ++ (if isOpen t.pol .upper x.hi then ")" else "]")
+
+/-- operands come from the journal with reported openness; rebuild the stored bits -/
+def toStored (t : Ty) (x : Iv) : Iv :=
+  ⟨⟨x.lo.value, t.pol.storeOpen && x.lo.open⟩, ⟨x.hi.value, t.pol.storeOpen && x.hi.open⟩⟩
+
+def valToIv (t : Ty) : Val → Option Iv
+  | .empty => some Iv.empty
+  | .iv x => some (toStored t x)
+  | _ => none
+
+def valToSI : Val → Spec.SI
+  | .iv x => Spec.ofIv x
+  | _ => none
+
+def parseRel (s : String) : Option Rel :=
+  if s == "eq" then some .eq else if s == "lt" then some .lt else if s == "le" then some .le
+  else if s == "gt" then some .gt else if s == "ge" then some .ge else if s == "ne" then some .ne
+  else none
+
+def relHolds (r : Rel) (a b : Rat) : Bool :=
+  match r with
+  | .eq => a == b | .lt => a < b | .le => a ≤ b | .gt => a > b | .ge => a ≥ b | .ne => a != b
+
+/-- sample members of a set-interval -/
+def samples (s : Spec.SI) : List Rat :=
+  match s with
+  | none => []
+  | some (l, u) =>
+    let tiny : Rat := 1 / 1048576
+    let base : List Rat :=
+      match l.v, u.v with
+      | fin a, fin b =>
+        let w := b - a
+        [a, b, (a + b) / 2, a + w * tiny, b - w * tiny, a + w / 3, a + tiny, b - tiny]
+      | fin a, _ => [a, a + tiny, a + 1, a + 1000, a + 123456789 / 7]
+      | _, fin b => [b, b - tiny, b - 1, b - 1000, b - 123456789 / 7]
+      | _, _ => [-1000000, -1, 1, 1000000, 5 / 3]
+    let cand := base ++ [0, tiny, -tiny, 1, -1]
+    (cand.filter (Spec.mem s)).eraseDups
+
+/-- integer sample members (for wrap) -/
+def intSamples (s : Spec.SI) : List Int :=
+  match s with
+  | none => []
+  | some (l, u) =>
+    let cand : List Int :=
+      match l.v, u.v with
+      | fin a, fin b =>
+        let fa := a.ceil
+        let fb := b.floor
+        [fa, fa + 1, fa + 2, fa + 3, fb, fb - 1, fb - 2, fb - 3, (fa + fb) / 2, 0, 1, -1, 255, 256]
+      | fin a, _ => [a.ceil, a.ceil + 1, a.ceil + 5, a.ceil + 300]
+      | _, fin b => [b.floor, b.floor - 1, b.floor - 5, b.floor - 300]
+      | _, _ => [-300, -1, 0, 1, 7, 300]
+    (cand.filter (fun (i : Int) => Spec.mem s ((i : Int) : Rat))).eraseDups
+
+structure Outcome where
+  lines : List String := []
+
+def mism (id ob tags detail : String) : String :=
+  "MISMATCH " ++ id ++ " " ++ ob ++ " tags=" ++ (if tags == "" then "-" else tags) ++ " " ++ detail
+
+/-- strictly both signs inside, as `mul_assign` sees it (`xls < 0 < xus`) -/
+def straddles (t : Ty) (x : Iv) : Bool :=
+  let ls := sgnB t.pol .lower x.lo
+  let us := if ls > 0 then 1 else sgnB t.pol .upper x.hi
+  ls < 0 && us > 0
+
+/-- tags describing how defect 3 acts on this operand pair (empty when it cannot act) -/
+def d3Tags (t : Ty) (x y : Iv) : List String :=
+  if checkEmptyArg t.pol x || checkEmptyArg t.pol y then []
+  else if !(straddles t x && straddles t y) then []
+  else
+    let p := t.pol
+    let R := t.rnd
+    let tmpL := bMul p R .lower p .upper x.hi p .lower y.lo
+    let toL := bMul p R .lower p .lower x.lo p .upper y.hi
+    let tmpU := bMul p R .upper p .upper x.hi p .upper y.hi
+    let toU := bMul p R .upper p .lower x.lo p .lower y.lo
+    let repL := gt p .lower toL p .lower tmpL
+    let repU := lt p .upper toU p .upper tmpU
+    let openMis := (repL && toL.open != tmpL.open && (tmpL.value.isFin || !p.storeSpecial))
+                || (repU && toU.open != tmpU.open && (tmpU.value.isFin || !p.storeSpecial))
+    let specialMis := p.storeSpecial && ((repL && !tmpL.value.isFin) || (repU && !tmpU.value.isFin))
+    (if openMis then ["both_straddle_zero_open_flag_of_discarded_candidate"] else [])
+      ++ (if specialMis then ["both_straddle_zero_special_flag_of_discarded_candidate"] else [])
+
+def pow2N (w : Nat) : Rat := (2 : Rat) ^ w
+
+def wrapVal (signed : Bool) (w : Nat) (a : Int) : Rat :=
+  if signed then smod2exp (a : Rat) w else umod2exp (a : Rat) w
+
+def d12Tags (x : Iv) (w : Nat) : List String :=
+  match x.lo.value, x.hi.value with
+  | fin l, fin h => if h - l == pow2N w then ["width_eq_2_pow_w"] else []
+  | _, _ => []
+
+def checkSetResult (id : String) (t : Ty) (tags : String) (realSI : Spec.SI) (spec : Spec.SI)
+    (exactOp : Bool) : List String :=
+  let specT := if t.integer then Spec.toInteger spec else spec
+  let e1 :=
+    if realSI.isNone && spec.isSome then
+      [mism id "empty" tags ("result reported empty, exact image is not: spec=" ++ reprStr specT)]
+    else []
+  let e2 :=
+    if !e1.isEmpty then []
+    else if !Spec.subset spec realSI then
+      [mism id "exact" tags "result does not contain the hull of the exact image"]
+    else if t.exact && exactOp && !Spec.seteq specT realSI then
+      [mism id "exact" tags ("exact boundary type, result is not the least interval")]
+    else []
+  e1 ++ e2
+
+def process (d3 d12 : Bool) (line : String) : List String :=
+  let toks := (line.trimAscii.toString.splitOn " ").filter (· != "")
+  match toks with
+  | [id, tys, ops, is, js, rs, oks] =>
+    match tyOf tys, parseVal is, parseVal js, parseVal rs with
+    | some t, some iv, some jv, some rv =>
+      let p := t.pol
+      let R := t.rnd
+      let opParts := ops.splitOn ":"
+      let opn := opParts.headD ""
+      let I := (valToIv t iv).getD Iv.empty
+      let J := (valToIv t jv).getD Iv.empty
+      let sI := valToSI iv
+      let sJ := valToSI jv
+      let realSI := valToSI rv
+      let oklT (tg : String) := if oks == "0" then [mism id "okinv" tg "OK() of the result is false"] else []
+      let okl := oklT ""
+      -- model result
+      let setOp (modelRes : Iv) (spec : Spec.SI) (exactOp : Bool) (tags : List String)
+          (skipModel : Bool) (encl : List String) : List String :=
+        let tg := ",".intercalate tags
+        let ms := showIv t modelRes
+        let m := if skipModel || ms == rs then [] else [mism id "model" tg ("model=" ++ ms ++ " real=" ++ rs)]
+        m ++ encl ++ checkSetResult id t tg realSI spec exactOp ++ oklT tg
+      let binSamples (f : Rat → Rat → Option Rat) (tags : List String) : List String :=
+        let tg := ",".intercalate tags
+        let bad := (samples sI).flatMap fun a => (samples sJ).filterMap fun b =>
+          match f a b with
+          | some c => if Spec.mem realSI c then none else some (a, b, c)
+          | none => none
+        match bad with
+        | [] => []
+        | (a, b, c) :: _ =>
+          [mism id "enclose" tg ("a=" ++ showRat a ++ " b=" ++ showRat b ++ " result " ++ showRat c ++ " not in " ++ rs
+            ++ " (" ++ toString bad.length ++ " sampled pairs)")]
+      let unSamples (src : Spec.SI) (f : Rat → Option Rat) (tags : List String) (what : String) : List String :=
+        let tg := ",".intercalate tags
+        let bad := (samples src).filterMap fun a =>
+          match f a with
+          | some c => if Spec.mem realSI c then none else some (a, c)
+          | none => none
+        match bad with
+        | [] => []
+        | (a, c) :: _ => [mism id "enclose" tg (what ++ " a=" ++ showRat a ++ " result " ++ showRat c ++ " not in " ++ rs)]
+      let predOp (modelRes : Bool) (truth : Option Bool) : List String :=
+        match rv with
+        | .bool r =>
+          (if modelRes != r then [mism id "model" "" ("model=" ++ toString modelRes ++ " real=" ++ rs)] else [])
+          ++ (match truth with
+              | some tr => if tr != r then [mism id "pred" "" ("truth=" ++ toString tr ++ " real=" ++ rs)] else []
+              | none => [])
+        | _ => [mism id "parse" "" "predicate result expected"]
+      -- a policy that cannot store OPEN weakens strict relations (the library rejects strict
+      -- constraints for such boxes): only enclosure is required there
+      let strictOk (rel : Rel) : Bool := p.storeOpen || rel == .eq || rel == .le || rel == .ge
+      let res : List String :=
+        if opn == "neg" then
+          setOp (negAssign p R I) (Spec.neg sI) true [] false (unSamples sI (fun a => some (-a)) [] "neg")
+        else if opn == "assign" then
+          setOp (assign p R p I) sI true [] false (unSamples sI (fun a => some a) [] "assign")
+        else if opn == "add" then
+          setOp (addAssign p R I J) (Spec.add sI sJ) true [] false (binSamples (fun a b => some (a + b)) [])
+        else if opn == "sub" then
+          setOp (subAssign p R I J) (Spec.sub sI sJ) true [] false (binSamples (fun a b => some (a - b)) [])
+        else if opn == "mul" then
+          let tags := if d3 then d3Tags t I J else []
+          let skip := tags.contains "both_straddle_zero_special_flag_of_discarded_candidate"
+          setOp (mulAssign d3 p R I J) (Spec.mul sI sJ) true tags skip (binSamples (fun a b => some (a * b)) tags)
+        else if opn == "div" then
+          -- x = {0} divided by a zero-straddling interval: universe by design (I_SINGULARITIES)
+          let spec := Spec.div sI sJ
+          setOp (divAssign p R I J) spec (spec != Spec.univ) [] false
+            (binSamples (fun a b => if b == 0 then none else some (a / b)) [])
+        else if opn == "join" then
+          setOp (joinAssign p R I J) (Spec.join sI sJ) true [] false
+            (unSamples sI some [] "join-left" ++ unSamples sJ some [] "join-right")
+        else if opn == "join2" then
+          setOp (joinAssign2 p R I J) (Spec.join sI sJ) true [] false
+            (unSamples sI some [] "join-left" ++ unSamples sJ some [] "join-right")
+        else if opn == "meet" then
+          setOp (intersectAssign p R I J) (Spec.meet sI sJ) true [] false
+            (unSamples sI (fun a => if Spec.mem sJ a then some a else none) [] "meet")
+        else if opn == "meet2" then
+          setOp (intersectAssign2 p R I J) (Spec.meet sI sJ) true [] false
+            (unSamples sI (fun a => if Spec.mem sJ a then some a else none) [] "meet")
+        else if opn == "diff" then
+          setOp (differenceAssign p R I J) (Spec.diff sI sJ) true [] false
+            (unSamples sI (fun a => if Spec.mem sJ a then none else some a) [] "diff")
+        else if opn == "rex" || opn == "run" then
+          match parseRel (opParts.getD 1 "") with
+          | some rel =>
+            if opn == "rex" then
+              let spec := Spec.refineEx sI rel sJ
+              setOp (refineExistential p R I rel J) spec (strictOk rel) [] false
+                (unSamples sI (fun a => if (samples sJ).any (fun b => relHolds rel a b) then some a else none) [] "rex")
+            else
+              let spec := Spec.refineUn sI rel sJ
+              -- the argument's bound consulted by the relation is a SPECIAL infinity: the code reads
+              -- the unspecified stored value through SCALAR_INFO (cannot be modelled)
+              let garbage := p.storeSpecial && !checkEmptyArg p J &&
+                (match rel with
+                 | .lt | .le => !J.lo.value.isFin
+                 | .gt | .ge => !J.hi.value.isFin
+                 | _ => false)
+              let tags := (if garbage then ["argument_bound_is_special_infinity"] else [])
+                ++ (if rel == .ne then ["not_equal_only_end_points"] else [])
+              setOp (refineUniversal p R I rel J) spec (strictOk rel) tags garbage
+                (unSamples sI (fun a => if Spec.mem spec a then some a else none) tags "run")
+          | none => [mism id "parse" "" ("bad relation in " ++ ops)]
+        else if opn == "wrap" then
+          let w := (opParts.getD 1 "8").toNat!
+          let signed := opParts.getD 2 "u" == "s"
+          let tags := if d12 then d12Tags I w else []
+          let tg := ",".intercalate tags
+          let modelRes := wrapAssign d12 p R I w (if signed then .signed2c else .unsigned) J
+          let ms := showIv t modelRes
+          let m := if ms == rs then [] else [mism id "model" tg ("model=" ++ ms ++ " real=" ++ rs)]
+          let bad := (intSamples sI).filterMap fun a =>
+            let c := wrapVal signed w a
+            if Spec.mem sJ c && !Spec.mem realSI c then some (a, c) else none
+          let e := match bad with
+            | [] => []
+            | (a, c) :: _ => [mism id "enclose" tg ("a=" ++ toString a ++ " wraps to " ++ showRat c ++ " (inside the refinement) not in " ++ rs)]
+          m ++ e ++ okl
+        else if opn == "contains" then
+          predOp (contains p I J) (some (Spec.subset sJ sI))
+        else if opn == "scontains" then
+          predOp (strictlyContains p I J) (some (Spec.subset sJ sI && !Spec.subset sI sJ))
+        else if opn == "disjoint" then
+          predOp (isDisjointFrom p I J) (some ((Spec.meet sI sJ).isNone))
+        else if opn == "eq" then
+          predOp (ivEq p I J) (some (Spec.seteq sI sJ))
+        else [mism id "parse" "" ("unknown op " ++ ops)]
+      if res.isEmpty then ["ok " ++ id] else res
+    | _, _, _, _ => [mism id "parse" "" "unparsable event"]
+  | _ => []
+
+partial def loop (d3 d12 : Bool) (h : IO.FS.Stream) (out : IO.FS.Stream) : IO Unit := do
+  let line ← h.getLine
+  if line.isEmpty then return ()
+  let c := line.trimAscii.toString
+  if c.isEmpty || c.startsWith "#" || c.startsWith "probe" || c.startsWith "crash" || c.startsWith "end"
+      || c.startsWith "batch" then
+    loop d3 d12 h out
+  else
+    for l in process d3 d12 c do
+      out.putStrLn l
+    loop d3 d12 h out
+
+def argFlag (args : List String) (name : String) (dflt : Bool) : Bool :=
+  match args with
+  | a :: v :: rest => if a == name then v == "1" else argFlag (v :: rest) name dflt
+  | _ => dflt
+
+end C12Driver
+
+def main (args : List String) : IO UInt32 := do
+  let d3 := C12Driver.argFlag args "--d3" true
+  let d12 := C12Driver.argFlag args "--d12" true
+  let stdin ← IO.getStdin
+  let stdout ← IO.getStdout
+  C12Driver.loop d3 d12 stdin stdout
   return 0
